@@ -437,7 +437,7 @@ pub fn run_c16(ctx: &Ctx) -> ! {
     let mut rep = Report::new(
         ctx,
         "exploration",
-        "complete finite domains: all 65 536 16-bit codes through StatusCode::from_u16 / IppHeader::status_code / is_success - the header-level decoding for protocol versions {1.1, 1.0, 2.0, 2.1, 2.2, 0.0, 3.0, ff.ff} x request-id {1, 0, 2^32-1}, on headers built in memory and on parsed responses - and through Operation::from_u16; all 256 bytes through DelimiterTag::from_u8 and ValueTag::from_u8; i32 -1..=300 through PrinterState, JobState, Orientation, PrintQuality, Finishings; IppValue::to_tag of each kind; against registry tables typed in from RFC 8010/8011, PWG 5100.1 and the CUPS specification (identifier names compared after normalisation); the readiness helper's status gate for all 65 536 codes with and without a printer group; and the success classification as the repository's command-line tool reports it: ipputil print against a loopback printer answering Print-Job with 825 status codes (0-2, every code of 0x0100-0x03ff, all named errors, far codes), exit status 0 <=> successful. distinct = (table, code); non-trivial = code present in the registry",
+        "complete finite domains: all 65 536 16-bit codes through StatusCode::from_u16 / IppHeader::status_code / is_success - the header-level decoding for protocol versions {1.1, 1.0, 2.0, 2.1, 2.2, 0.0, 3.0, ff.ff} x request-id {1, 0, 2^32-1}, on headers built in memory and on parsed responses (bare and with three layouts of attribute groups: the status word must come through untouched) - and through Operation::from_u16; all 256 bytes through DelimiterTag::from_u8 and ValueTag::from_u8; i32 -1..=300 through PrinterState, JobState, Orientation, PrintQuality, Finishings; IppValue::to_tag of each kind; against registry tables typed in from RFC 8010/8011, PWG 5100.1 and the CUPS specification (identifier names compared after normalisation); the readiness helper's status gate for all 65 536 codes with and without a printer group; and the success classification as the repository's command-line tool reports it: ipputil print against a loopback printer answering Print-Job with 825 status codes (0-2, every code of 0x0100-0x03ff, all named errors, far codes), exit status 0 <=> successful. distinct = (table, code); non-trivial = code present in the registry",
     );
     rep.assume("registry tables R2 in vmc::registry were typed in correctly from the RFCs");
     let mut st = Stats::new();
@@ -572,6 +572,31 @@ pub fn run_c16(ctx: &Ctx) -> ! {
         let v = IppValue::Other { tag: t, data: Default::default() };
         if v.to_tag() != t {
             st.violate("to_tag", format!("Other{{tag:{:#04x}}} is tagged {:#04x}", t, v.to_tag()), json!({"table": "to_tag", "kind": "other", "code": t}));
+        }
+    }
+    // ... and on responses that carry attribute groups (the parser must hand the status word through untouched)
+    for c in 0..=0xffffu32 {
+        for body in 0..3usize {
+            st.evaluations += 1;
+            let mut wire = vec![0x01, 0x01, (c >> 8) as u8, c as u8, 0, 0, 0, 9];
+            match body {
+                0 => wire.extend_from_slice(&[0x05, 0x44, 0, 1, b'u', 0, 1, b'k']),
+                1 => wire.extend_from_slice(&[0x01, 0x47, 0, 18, b'a', b't', b't', b'r', b'i', b'b', b'u', b't', b'e', b's', b'-', b'c', b'h', b'a', b'r', b's', b'e', b't', 0, 5, b'u', b't', b'f', b'-', b'8', 0x05, 0x10, 0, 1, b'x', 0, 0, 0x04, 0x23, 0, 1, b's', 0, 4, 0, 0, 0, 3]),
+                _ => wire.extend_from_slice(&[0x02, 0x21, 0, 1, b'j', 0, 4, 0, 0, 0, 1, 0x02, 0x05]),
+            }
+            wire.push(0x03);
+            let case = json!({"table": "status_code()", "code": c, "parsed_with_groups": body});
+            match ipp::parser::IppParser::new(ipp::reader::IppReader::new(std::io::Cursor::new(wire))).parse() {
+                Ok(r) => {
+                    let h = r.header();
+                    if h.operation_or_status as u32 != c {
+                        st.violate("status_code:status-word-altered-by-the-parser", format!("a response sent with status {:#06x} (group layout {}) is handed out with status {:#06x}", c, body, h.operation_or_status), case);
+                    } else if reg::lookup_code(reg::STATUS, c).is_some() && h.status_code() as u16 as u32 != c {
+                        st.violate("status_code:wrong-symbol", format!("parsed response status {:#06x} decodes to {:?}", c, h.status_code()), case);
+                    }
+                }
+                Err(_) => st.count("responses_not_accepted_by_the_parser", 1),
+            }
         }
     }
     // ... and as the readiness helper reports it: for every status code, a response without a printer group and one
